@@ -251,3 +251,336 @@ Proof.
       rewrite Eid. cbn [negb].
       split; [rewrite <- app_assoc in Hc'; exact Hc'|]. split; [exact Hdom'|exact Hrest].
 Qed.
+
+(* ---- the representation relation ---- *)
+Record Rep (w : world) (hw : hworld) (lp : list node) : Prop := mk_Rep {
+  rp_list : first (ws w) = binds lp;
+  rp_chain : hchain (cells (hs hw)) (hfirst (hs hw)) lp;
+  rp_nodup : NoDup (addrs lp);
+  rp_exact : forall a, BM.find a (cells (hs hw)) <> None -> In a (addrs lp);
+  rp_fresh : forall a, In a (addrs lp) -> (a < hfresh (hs hw))%positive;
+  rp_iter : hiter (hs hw) = is_iter (ws w);
+  rp_del : hdel (hs hw) = needs_del (ws w);
+  rp_n : hn hw = wn w;
+  rp_t : ht hw = wt w;
+  rp_names : NoDup (names (binds lp));
+  rp_bound : forall d, In d (names (binds lp)) -> - wn w < d < wn w;
+  rp_wn : 0 < wn w }.
+
+Lemma rep_init : Rep init_world init_hworld [].
+Proof.
+  constructor; cbn; auto; try constructor; try (intros; contradiction); try lia.
+  intros a H. exfalso. apply H. apply BM.gempty.
+Qed.
+
+(* enough fuel for every walk inside one call *)
+Lemma bounded_length : forall (l : list positive) n, NoDup l -> (forall x, In x l -> (x < n)%positive) ->
+  (length l < Pos.to_nat n)%nat.
+Proof.
+  intros l n Hnd Hb.
+  assert (Hinc : incl (map Pos.to_nat l) (seq 1 (Pos.to_nat n - 1))).
+  { intros y Hy. apply in_map_iff in Hy. destruct Hy as (x & <- & Hx). apply in_seq. specialize (Hb x Hx). lia. }
+  assert (Hnd' : NoDup (map Pos.to_nat l)).
+  { clear Hb Hinc. induction Hnd as [|x l Hx Hnd IH]; cbn; constructor; auto.
+    intro Hi. apply in_map_iff in Hi. destruct Hi as (y & E & Hy). apply Pos2Nat.inj in E. subst y. auto. }
+  pose proof (NoDup_incl_length Hnd' Hinc) as H. rewrite map_length, seq_length in H. pose proof (Pos2Nat.is_pos n). lia.
+Qed.
+Lemma rep_fuel : forall w hw lp, Rep w hw lp -> (length lp < walk_fuel (hs hw))%nat.
+Proof.
+  intros w hw lp R. unfold walk_fuel.
+  pose proof (bounded_length (addrs lp) _ (rp_nodup _ _ _ R) (rp_fresh _ _ _ R)) as H.
+  unfold addrs in H. rewrite map_length in H. apply Nat.lt_lt_succ_r. exact H.
+Qed.
+
+(* ---- how a pair of worlds may develop: names and addresses are never used twice ---- *)
+Record Evolves (w : world) (hw : hworld) (lp : list node) (w' : world) (hw' : hworld) (lp' : list node) : Prop := mk_Ev {
+  ev_n : wn w <= wn w';
+  ev_f : (hfresh (hs hw) <= hfresh (hs hw'))%positive;
+  ev_pairs : forall a b, In (a, b) lp' ->
+     (exists b0, In (a, b0) lp /\ b_data b0 = b_data b) \/ (wn w <= Z.abs (b_data b) /\ (hfresh (hs hw) <= a)%positive) }.
+
+Lemma evolves_refl : forall w hw lp, Evolves w hw lp w hw lp.
+Proof. intros. constructor; [lia|lia|]. intros a b H. left. eauto. Qed.
+Lemma evolves_trans : forall w1 h1 l1 w2 h2 l2 w3 h3 l3,
+  Evolves w1 h1 l1 w2 h2 l2 -> Evolves w2 h2 l2 w3 h3 l3 -> Evolves w1 h1 l1 w3 h3 l3.
+Proof.
+  intros w1 h1 l1 w2 h2 l2 w3 h3 l3 [N1 F1 P1] [N2 F2 P2]. constructor; [lia|lia|].
+  intros a b H. destruct (P2 a b H) as [(b0 & H0 & E0)|[Hn Hf]].
+  - destruct (P1 a b0 H0) as [(b1 & H1 & E1)|[Hn Hf]].
+    + left. exists b1. split; [exact H1|congruence].
+    + right. rewrite <- E0. auto.
+  - right. split; lia.
+Qed.
+
+(* ---- cursors: the loop variable [bind] against the name BindDefs.v follows ---- *)
+Definition crel (w : world) (hw : hworld) (lp : list node) (cur : option Z) (hcur : option positive) : Prop :=
+  match cur, hcur with
+  | None, None => True
+  | Some d, Some a =>
+    (exists b, In (a, b) lp /\ b_data b = d) \/
+    (~ In d (names (binds lp)) /\ BM.find a (cells (hs hw)) = None /\ Z.abs d < wn w /\ (a < hfresh (hs hw))%positive)
+  | _, _ => False
+  end.
+
+Lemma in_addrs : forall (lp : list node) a b, In (a, b) lp -> In a (addrs lp).
+Proof. intros. unfold addrs. apply in_map_iff. exists (a, b). auto. Qed.
+Lemma in_names : forall (lp : list node) a b, In (a, b) lp -> In (b_data b) (names (binds lp)).
+Proof. intros. unfold names, binds. rewrite map_map. apply in_map_iff. exists (a, b). auto. Qed.
+Lemma addrs_in : forall (lp : list node) a, In a (addrs lp) -> exists b, In (a, b) lp.
+Proof. intros lp a H. apply in_map_iff in H. destruct H as ([a' b] & E & H). cbn in E. subst a'. eauto. Qed.
+Lemma names_in : forall (lp : list node) d, In d (names (binds lp)) -> exists a b, In (a, b) lp /\ b_data b = d.
+Proof.
+  intros lp d H. unfold names, binds in H. rewrite map_map in H. apply in_map_iff in H.
+  destruct H as ([a b] & E & H). cbn in E. eauto.
+Qed.
+
+Lemma nodup_addrs_fun : forall (lp : list node) a b b', NoDup (addrs lp) -> In (a, b) lp -> In (a, b') lp -> b = b'.
+Proof.
+  induction lp as [|[a0 b0] lp IH]; intros a b b' Hnd H1 H2; [destruct H1|].
+  cbn in Hnd. inversion Hnd as [|? ? Hn Hnd']; subst.
+  destruct H1 as [E1|H1]; destruct H2 as [E2|H2].
+  - congruence.
+  - inversion E1; subst. exfalso. apply Hn. eapply in_addrs; eauto.
+  - inversion E2; subst. exfalso. apply Hn. eapply in_addrs; eauto.
+  - eapply IH; eauto.
+Qed.
+Lemma nodup_names_fun : forall (lp : list node) a a' b b', NoDup (names (binds lp)) ->
+  In (a, b) lp -> In (a', b') lp -> b_data b = b_data b' -> (a, b) = (a', b').
+Proof.
+  induction lp as [|[a0 b0] lp IH]; intros a a' b b' Hnd H1 H2 E; [destruct H1|].
+  cbn in Hnd. inversion Hnd as [|? ? Hn Hnd']; subst.
+  destruct H1 as [E1|H1]; destruct H2 as [E2|H2].
+  - congruence.
+  - inversion E1; subst. exfalso. apply Hn. rewrite E. eapply in_names; eauto.
+  - inversion E2; subst. exfalso. apply Hn. rewrite <- E. eapply in_names; eauto.
+  - eapply IH; eauto.
+Qed.
+
+Lemma crel_evolves : forall w hw lp w' hw' lp' cur hcur,
+  Rep w hw lp -> Rep w' hw' lp' -> Evolves w hw lp w' hw' lp' ->
+  crel w hw lp cur hcur -> crel w' hw' lp' cur hcur.
+Proof.
+  intros w hw lp w' hw' lp' cur hcur R R' [EN EF EP] C.
+  destruct cur as [d|], hcur as [a|]; cbn in *; auto.
+  assert (Hdang : ~ In d (names (binds lp)) -> BM.find a (cells (hs hw)) = None -> Z.abs d < wn w ->
+                  (a < hfresh (hs hw))%positive ->
+                  ~ In d (names (binds lp')) /\ BM.find a (cells (hs hw')) = None).
+  { intros Hd Ha Hbd Hba. split.
+    - intro Hi. destruct (names_in _ _ Hi) as (a' & b' & Hp & Ed).
+      destruct (EP a' b' Hp) as [(b0 & H0 & E0)|[Hn _]]; [|rewrite Ed in Hn; lia].
+      apply Hd. rewrite <- Ed, <- E0. eapply in_names; eauto.
+    - destruct (BM.find a (cells (hs hw'))) eqn:Hf; [|reflexivity]. exfalso.
+      assert (Hin : In a (addrs lp')) by (apply (rp_exact _ _ _ R'); congruence).
+      destruct (addrs_in _ _ Hin) as (b' & Hp).
+      destruct (EP a b' Hp) as [(b0 & H0 & E0)|[_ Hf']]; [|lia].
+      pose proof (hchain_live _ _ _ a (rp_chain _ _ _ R) (in_addrs _ _ _ H0)). congruence. }
+  destruct C as [(b & Hp & Ed)|(Hd & Ha & Hbd & Hba)].
+  - destruct (in_dec Pos.eq_dec a (addrs lp')) as [Hin|Hnin].
+    + left. destruct (addrs_in _ _ Hin) as (b' & Hp').
+      destruct (EP a b' Hp') as [(b0 & H0 & E0)|[_ Hf']].
+      * assert (b0 = b) by (eapply nodup_addrs_fun; eauto; apply (rp_nodup _ _ _ R)). subst b0.
+        exists b'. split; [exact Hp'|congruence].
+      * pose proof (rp_fresh _ _ _ R a (in_addrs _ _ _ Hp)). lia.
+    + right.
+      assert (Hbd : Z.abs d < wn w).
+      { pose proof (rp_bound _ _ _ R d). rewrite <- Ed in *. specialize (H (in_names _ _ _ Hp)). lia. }
+      assert (Hba : (a < hfresh (hs hw))%positive) by (apply (rp_fresh _ _ _ R); eapply in_addrs; eauto).
+      split; [|split; [|split; lia]].
+      * intro Hi. destruct (names_in _ _ Hi) as (a' & b' & Hp' & Ed').
+        destruct (EP a' b' Hp') as [(b0 & H0 & E0)|[Hn _]]; [|rewrite Ed' in Hn; lia].
+        assert (E : (a', b0) = (a, b)).
+        { eapply nodup_names_fun; eauto; [apply (rp_names _ _ _ R)|congruence]. }
+        inversion E; subst. apply Hnin. eapply in_addrs; eauto.
+      * destruct (BM.find a (cells (hs hw'))) eqn:Hf; [|reflexivity]. exfalso. apply Hnin.
+        apply (rp_exact _ _ _ R'). congruence.
+  - right. destruct (Hdang Hd Ha Hbd Hba). repeat split; auto; lia.
+Qed.
+
+(* ---- list facts ---- *)
+Lemma binds_filter_live : forall lp,
+  binds (filter livep lp) = filter (fun b => negb (b_id b =? TOMBSTONE_ID)) (binds lp).
+Proof.
+  unfold binds. induction lp as [|[a b] lp IH]; [reflexivity|].
+  change (filter livep ((a, b) :: lp)) with (if negb (b_id b =? TOMBSTONE_ID) then (a, b) :: filter livep lp else filter livep lp).
+  cbn [map snd filter]. destruct (b_id b =? TOMBSTONE_ID); cbn [negb map snd]; rewrite IH; reflexivity.
+Qed.
+Lemma filter_in_pair : forall (f : node -> bool) lp p, In p (filter f lp) -> In p lp.
+Proof. intros f lp p H. apply filter_In in H. tauto. Qed.
+Lemma nodup_map_filter : forall (A B : Type) (g : A -> B) (f : A -> bool) l, NoDup (map g l) -> NoDup (map g (filter f l)).
+Proof.
+  induction l as [|x l IH]; intros H; cbn in *; [constructor|]. inversion H as [|? ? Hn Hnd]; subst.
+  destruct (f x); cbn; auto. constructor; auto. intro Hi. apply Hn. apply in_map_iff in Hi.
+  destruct Hi as (y & E & Hy). apply filter_In in Hy. apply in_map_iff. exists y. tauto.
+Qed.
+
+(* the cell of one node is rewritten (same next pointer, same name) *)
+Definition upd_node (a : positive) (f : binding -> binding) (lp : list node) : list node :=
+  map (fun p => if Pos.eqb (fst p) a then (fst p, f (snd p)) else p) lp.
+
+Lemma addrs_upd_node : forall a f lp, addrs (upd_node a f lp) = addrs lp.
+Proof.
+  intros. unfold addrs, upd_node. rewrite map_map. apply map_ext. intros [x y]. cbn. destruct (Pos.eqb x a); reflexivity.
+Qed.
+Lemma names_upd_node : forall a f lp, (forall b, b_data (f b) = b_data b) -> names (binds (upd_node a f lp)) = names (binds lp).
+Proof.
+  intros a f lp Hf. unfold names, binds, upd_node. rewrite !map_map. apply map_ext. intros [x y]. cbn.
+  destruct (Pos.eqb x a); cbn; auto.
+Qed.
+Lemma upd_node_notin : forall a f lp, ~ In a (addrs lp) -> upd_node a f lp = lp.
+Proof.
+  induction lp as [|[x y] lp IH]; intros H; [reflexivity|].
+  change (upd_node a f ((x, y) :: lp)) with ((if Pos.eqb x a then (x, f y) else (x, y)) :: upd_node a f lp).
+  destruct (Pos.eqb_spec x a) as [->|Hne]; [exfalso; apply H; left; reflexivity|].
+  rewrite IH; [reflexivity|]. intro Hi. apply H. right. exact Hi.
+Qed.
+Lemma in_upd_node : forall a f lp x y, In (x, y) (upd_node a f lp) ->
+  exists y0, In (x, y0) lp /\ (y = y0 \/ y = f y0).
+Proof.
+  intros a f lp x y H. apply in_map_iff in H. destruct H as ([x0 y0] & E & H). cbn in E.
+  destruct (Pos.eqb x0 a); inversion E; subst; eauto.
+Qed.
+
+Lemma chain_update : forall m k lp, hchain m k lp -> forall a b f, NoDup (addrs lp) -> In (a, b) lp ->
+  exists nx, BM.find a m = Some (cell_of b nx) /\ hchain (BM.add a (cell_of (f b) nx) m) k (upd_node a f lp).
+Proof.
+  induction 1 as [|a0 b0 nx0 lp Hf Hc IH]; intros a b f Hnd Hin; [destruct Hin|].
+  cbn in Hnd. inversion Hnd as [|? ? Hn Hnd']; subst.
+  change (upd_node a f ((a0, b0) :: lp)) with ((if Pos.eqb a0 a then (a0, f b0) else (a0, b0)) :: upd_node a f lp).
+  destruct Hin as [E|Hin].
+  - inversion E; subst. rewrite Pos.eqb_refl. exists nx0. split; [exact Hf|].
+    econstructor; [apply BM.gss|]. rewrite upd_node_notin by exact Hn.
+    eapply hchain_ext; [exact Hc|]. intros x Hx. apply BM.gso. intro; subst. contradiction.
+  - assert (Hne : a0 <> a) by (intro; subst; apply Hn; eapply in_addrs; eauto).
+    destruct (Pos.eqb_spec a0 a) as [|_]; [contradiction|].
+    destruct (IH a b f Hnd' Hin) as (nx & Hfa & Hc'). exists nx. split; [exact Hfa|].
+    econstructor; [rewrite BM.gso by auto; exact Hf|exact Hc'].
+Qed.
+
+Lemma binds_upd_node : forall lp a b f, NoDup (addrs lp) -> NoDup (names (binds lp)) -> In (a, b) lp ->
+  (forall x, b_data (f x) = b_data x) ->
+  binds (upd_node a f lp) = update_node (b_data b) f (binds lp).
+Proof.
+  intros lp a b f Hna Hnn Hin Hf. unfold binds, upd_node, update_node. rewrite !map_map.
+  apply map_ext_in. intros [x y] Hxy. cbn.
+  destruct (Pos.eqb_spec x a) as [->|Hne].
+  - assert (y = b) by (eapply nodup_addrs_fun; eauto). subst y. rewrite Z.eqb_refl. reflexivity.
+  - destruct (Z.eqb_spec (b_data y) (b_data b)) as [E|_]; [|reflexivity].
+    exfalso. apply Hne. assert (P : (x, y) = (a, b)) by (eapply nodup_names_fun; eauto). inversion P. reflexivity.
+Qed.
+
+(* the node at a given address: what the list model finds by name, the heap model finds by pointer *)
+Lemma chain_at : forall m k lp, hchain m k lp -> forall a b, NoDup (names (binds lp)) -> In (a, b) lp ->
+  exists lp2 nx, BM.find a m = Some (cell_of b nx) /\ hchain m nx lp2 /\
+                 find_node (b_data b) (binds lp) = Some b /\
+                 next_of (b_data b) (binds lp) = Some (head_name (binds lp2)) /\
+                 nx = option_map fst (hd_error lp2) /\ (forall p, In p lp2 -> In p lp).
+Proof.
+  induction 1 as [|a0 b0 nx0 lp Hf Hc IH]; intros a b Hnn Hin; [destruct Hin|].
+  cbn in Hnn. inversion Hnn as [|? ? Hn Hnn']; subst. destruct Hin as [E|Hin].
+  - inversion E; subst. exists lp, nx0. cbn. unfold find_node. cbn. rewrite Z.eqb_refl.
+    repeat split; auto. inversion Hc; reflexivity.
+  - assert (Hne : b_data b0 <> b_data b) by (intro E; apply Hn; rewrite E; eapply in_names; eauto).
+    destruct (IH a b Hnn' Hin) as (lp2 & nx & H1 & H2 & H3 & H4 & H5 & H6).
+    exists lp2, nx. cbn. unfold find_node in *. cbn.
+    destruct (Z.eqb_spec (b_data b0) (b_data b)) as [|_]; [contradiction|]. repeat split; auto.
+Qed.
+
+Lemma find_id_binds : forall lp id,
+  find (fun b => b_id b =? id) (binds lp) = option_map snd (find (has_id id) lp).
+Proof.
+  induction lp as [|[a b] lp IH]; intro id; cbn; [reflexivity|]. unfold has_id at 1. cbn [snd].
+  destruct (b_id b =? id); [reflexivity|apply IH].
+Qed.
+Lemma find_in : forall (A : Type) (f : A -> bool) l x, find f l = Some x -> In x l.
+Proof. intros A f l x H. apply find_some in H. tauto. Qed.
+
+Lemma binds_snoc : forall lp a b, binds (lp ++ [(a, b)]) = binds lp ++ [b].
+Proof. intros. unfold binds. rewrite map_app. reflexivity. Qed.
+Lemma last_snoc : forall (A : Type) (l : list A) x d, last (l ++ [x]) d = x.
+Proof. induction l as [|y l IH]; intros; cbn; auto. rewrite IH. destruct (l ++ [x]) eqn:E; auto. destruct l; discriminate. Qed.
+Lemma snoc_cases : forall (A : Type) (l : list A), l = [] \/ exists l0 x, l = l0 ++ [x].
+Proof.
+  induction l as [|y l IH]; [left; reflexivity|right]. destruct IH as [->|(l0 & x & ->)].
+  - exists [], y. reflexivity.
+  - exists (y :: l0), x. reflexivity.
+Qed.
+
+(* ---- the operations, on related worlds ---- *)
+Lemma live_or_dead : forall lp x, In x (addrs lp) -> In x (addrs (filter livep lp)) \/ In x (addrs (filter deadp lp)).
+Proof.
+  intros lp x H. destruct (addrs_in _ _ H) as (b & Hp). destruct (deadp (x, b)) eqn:E.
+  - right. apply (in_addrs _ x b). apply filter_In. auto.
+  - left. apply (in_addrs _ x b). apply filter_In. unfold livep. rewrite E. auto.
+Qed.
+Lemma names_as_map : forall lp, names (binds lp) = map (fun p : node => b_data (snd p)) lp.
+Proof. intro. unfold names, binds. apply map_map. Qed.
+
+Lemma rep_end_iteration : forall w hw lp was, Rep w hw lp ->
+  exists h3 lp', h_end_iteration was (hs hw) = Ok h3 /\
+    Rep (set_state (end_iteration was (ws w)) w) (hset h3 hw) lp' /\
+    Evolves w hw lp (set_state (end_iteration was (ws w)) w) (hset h3 hw) lp'.
+Proof.
+  intros w hw lp was R. unfold h_end_iteration, end_iteration. cbn [hdel set_iter needs_del].
+  rewrite (rp_del _ _ _ R). destruct (negb was && needs_del (ws w)) eqn:Ec.
+  - (* the sweep *)
+    unfold h_cleanup.
+    assert (Hs : hsplit (cells (set_iter (hs hw) was)) (hfirst (set_iter (hs hw) was)) [] (hfirst (hs hw)) lp).
+    { constructor. exact (rp_chain _ _ _ R). }
+    destruct (sweep_spec lp [] (set_iter (hs hw) was) _ (walk_fuel (set_iter (hs hw) was)) Hs (rp_nodup _ _ _ R) (rep_fuel _ _ _ R))
+      as (h' & Hsw & Hc' & Hdom & Hi' & Hd' & Hn').
+    unfold slot_after in Hsw. cbn [addrs map slot_from] in Hsw. rewrite Hsw. cbn [rbind].
+    exists (set_del h' false), (filter livep lp). split; [reflexivity|]. split.
+    + constructor; cbn.
+      * rewrite (rp_list _ _ _ R). symmetry. apply binds_filter_live.
+      * exact Hc'.
+      * apply nodup_map_filter. exact (rp_nodup _ _ _ R).
+      * intros a Ha. assert (Hold : BM.find a (cells (hs hw)) <> None /\ ~ In a (addrs (filter deadp lp))).
+        { split; intro Hx; apply Ha; apply Hdom; auto. }
+        destruct Hold as [H1 H2]. destruct (live_or_dead lp a (rp_exact _ _ _ R a H1)); [assumption|contradiction].
+      * intros a Ha. rewrite Hn'. cbn. apply (rp_fresh _ _ _ R). destruct (addrs_in _ _ Ha) as (b & Hp).
+        eapply in_addrs. eapply filter_in_pair; eauto.
+      * rewrite Hi'. reflexivity.
+      * reflexivity.
+      * exact (rp_n _ _ _ R).
+      * exact (rp_t _ _ _ R).
+      * rewrite names_as_map. apply nodup_map_filter. rewrite <- names_as_map. exact (rp_names _ _ _ R).
+      * intros d Hd. apply (rp_bound _ _ _ R). destruct (names_in _ _ Hd) as (a & b & Hp & <-).
+        eapply in_names. eapply filter_in_pair; eauto.
+      * exact (rp_wn _ _ _ R).
+    + constructor; cbn; [lia|rewrite Hn'; cbn; lia|].
+      intros a b Hp. left. exists b. split; [eapply filter_in_pair; eauto|reflexivity].
+  - exists (set_iter (hs hw) was), lp. split; [reflexivity|]. split.
+    + destruct R. constructor; cbn; auto.
+    + constructor; cbn; [lia|lia|]. intros a b Hp. left. eauto.
+Qed.
+
+(* one cell is turned into a tombstone; the sweep is requested *)
+Lemma rep_tomb : forall w hw lp a b, Rep w hw lp -> In (a, b) lp ->
+  exists nx h1, BM.find a (cells (hs hw)) = Some (cell_of b nx) /\
+    wr (hs hw) a (ctomb (cell_of b nx)) = Ok h1 /\
+    forall it, Rep (set_state (mkS (update_node (b_data b) tombstone (first (ws w))) it true) w)
+                   (hset (set_iter (set_del h1 true) it) hw) (upd_node a tombstone lp) /\
+               Evolves w hw lp (set_state (mkS (update_node (b_data b) tombstone (first (ws w))) it true) w)
+                       (hset (set_iter (set_del h1 true) it) hw) (upd_node a tombstone lp).
+Proof.
+  intros w hw lp a b R Hin.
+  destruct (chain_update _ _ _ (rp_chain _ _ _ R) a b tombstone (rp_nodup _ _ _ R) Hin) as (nx & Hf & Hc).
+  exists nx. eexists. split; [exact Hf|]. unfold wr. rewrite Hf. split; [reflexivity|]. intro it.
+  assert (Ht : ctomb (cell_of b nx) = cell_of (tombstone b) nx) by reflexivity.
+  split.
+  - constructor; cbn.
+    + rewrite (rp_list _ _ _ R). symmetry. apply binds_upd_node; auto; [apply (rp_nodup _ _ _ R)|apply (rp_names _ _ _ R)].
+    + rewrite Ht. exact Hc.
+    + rewrite addrs_upd_node. exact (rp_nodup _ _ _ R).
+    + intros x Hx. rewrite addrs_upd_node. destruct (Pos.eq_dec x a) as [->|Hne]; [eapply in_addrs; eauto|].
+      rewrite BM.gso in Hx by auto. exact (rp_exact _ _ _ R x Hx).
+    + intros x Hx. rewrite addrs_upd_node in Hx. exact (rp_fresh _ _ _ R x Hx).
+    + reflexivity.
+    + reflexivity.
+    + exact (rp_n _ _ _ R).
+    + exact (rp_t _ _ _ R).
+    + rewrite names_upd_node by reflexivity. exact (rp_names _ _ _ R).
+    + intros d Hd. rewrite names_upd_node in Hd by reflexivity. exact (rp_bound _ _ _ R d Hd).
+    + exact (rp_wn _ _ _ R).
+  - constructor; cbn; [lia|lia|]. intros x y Hp. left. destruct (in_upd_node _ _ _ _ _ Hp) as (y0 & H0 & [->| ->]); eauto.
+Qed.
